@@ -4,6 +4,7 @@ import (
 	"bytes"
 	"encoding/binary"
 	"fmt"
+	"github.com/henrylee2cn/erpc/v6/proto/pbproto/pb"
 	"runtime"
 	"strconv"
 	"strings"
@@ -130,7 +131,143 @@ func (w *hostileWorld) feed(proto string, input []byte, followValid bool) (state
 	return "disconnected", allocDelta, replies
 }
 
+// hostileResult is what the caller of the reply-body cases decodes into.
+type hostileResult struct {
+	A string   `json:"a" xml:"a" form:"a"`
+	D [2]int   `json:"d" xml:"d" form:"d"`
+	S []string `json:"s" xml:"s" form:"s"`
+	N int32    `json:"n" xml:"n" form:"n"`
+}
+
+// replyBodyCase: a real client session has a call outstanding; a scripted remote answers with a well-formed REPLY
+// whose body is malformed for the codec it names.  The caller must complete (any status), the session must end up
+// functional or cleanly disconnected, and the control session must keep working.
+func (d *dataRun) replyBodyCase(c DataCase, out map[string]interface{}) {
+	w := getHostileWorld(d.rec)
+	before := w.controlOK()
+	codecID := c.S("codec")[0]
+	var body []byte
+	valid := map[byte][]byte{
+		'j': []byte(`{"a":"x","d":[1,2],"s":["p","q"],"n":7}`),
+		'x': []byte(`<hostileResult><a>x</a><d>1</d><d>2</d><s>p</s><n>7</n></hostileResult>`),
+		'f': []byte(`a=x&d=1&d=2&s=p&s=q&n=7`),
+		's': []byte(`plain text`),
+		'p': {0x08, 0x01, 0x12, 0x03, 'a', 'b', 'c'},
+	}[codecID]
+	switch c.S("lenval") {
+	case "overflow": // more values than the fixed array holds / numbers out of range
+		body = map[byte][]byte{
+			'j': []byte(`{"a":"x","d":[1,2,3,4,5],"n":99999999999999999999}`),
+			'x': []byte(`<hostileResult><d>1</d><d>2</d><d>3</d><d>4</d><n>99999999999999999999</n></hostileResult>`),
+			'f': []byte(`a=x&d=1&d=2&d=3&d=4&n=99999999999999999999`),
+			's': bytes.Repeat([]byte("9"), 5000),
+			'p': {0x08, 0xff, 0xff, 0xff, 0xff, 0xff, 0xff, 0xff, 0xff, 0xff, 0xff, 0xff, 0x01},
+		}[codecID]
+	case "wrongtype":
+		body = map[byte][]byte{
+			'j': []byte(`{"a":{"x":1},"d":"no","s":7,"n":"z"}`),
+			'x': []byte(`<hostileResult><d>no</d><n>z</n><s><t>1</t></s></hostileResult>`),
+			'f': []byte(`d=no&n=z&s`),
+			's': {0xff, 0xfe, 0x00},
+			'p': {0x0a, 0x7f, 0x01},
+		}[codecID]
+	case "truncated":
+		body = valid[:len(valid)/2]
+	case "random":
+		body = make([]byte, 1+d.rnd.Intn(200))
+		d.rnd.Read(body)
+	case "empty":
+		body = []byte{}
+	case "huge":
+		body = append(append([]byte(nil), valid...), bytes.Repeat([]byte{' '}, 40000)...)
+	}
+	w.n++
+	a, b := Pipe(fmt.Sprintf("HRC%d", w.n), fmt.Sprintf("HRS%d", w.n))
+	cs, st := w.cli.ServeConn(a)
+	if !st.OK() {
+		out["err"] = "setup"
+		return
+	}
+	// the scripted remote: read the CALL, answer with the hostile REPLY, then hang up a little later
+	raw := socket.NewSocket(b)
+	go func() {
+		m := socket.GetMessage(socket.WithNewBody(func(socket.Header) interface{} { return new([]byte) }))
+		if err := raw.ReadMessage(m); err != nil {
+			return
+		}
+		// the body bytes are already "encoded": send them as they are under the named codec id
+		var wbuf bytes.Buffer
+		rm := socket.NewMessage()
+		rm.SetMtype(erpc.TypeReply)
+		rm.SetSeq(m.Seq())
+		rm.SetServiceMethod(m.ServiceMethod())
+		rm.SetBody(&body)
+		socket.RawProtoFunc(&rwBuf{r: bytes.NewReader(nil), w: &wbuf}).Pack(rm)
+		frame := patchCodec(wbuf.Bytes(), codecID)
+		b.Write(frame)
+		time.Sleep(150 * time.Millisecond)
+		b.Close()
+	}()
+	var ms1, ms2 runtime.MemStats
+	runtime.ReadMemStats(&ms1)
+	res := new(hostileResult)
+	var arg, result interface{} = &Arg{Tag: "hr"}, res
+	if codecID == 's' {
+		result = new(string)
+	}
+	if codecID == 'p' {
+		result = new(pb.Payload)
+	}
+	done := make(chan erpc.CallCmd, 1)
+	go func() { done <- cs.Call(CallRoute, arg, result) }()
+	completed := false
+	select {
+	case <-done:
+		completed = true
+	case <-time.After(3 * time.Second):
+	}
+	ended := WaitUntil(2*time.Second, func() bool {
+		select {
+		case <-cs.CloseNotify():
+			return !cs.Health()
+		default:
+			return false
+		}
+	})
+	runtime.ReadMemStats(&ms2)
+	alloc := ms2.TotalAlloc - ms1.TotalAlloc
+	after := w.controlOK()
+	out["alive"] = true
+	out["boundok"] = alloc <= 65536+(2<<20)
+	out["stateok"] = completed && ended
+	out["controlok"] = before && after
+	out["maxalloc"] = alloc
+	out["states"] = fmt.Sprintf("completed=%v ended=%v", completed, ended)
+	out["tried"] = 1
+}
+
+// patchCodec sets the body codec id in the header of a raw-protocol frame that was packed with a *[]byte body
+// (codec id 0 at the time of packing): the byte that follows the metadata length-prefixed field.
+func patchCodec(frame []byte, id byte) []byte {
+	// raw frame: size(4) pipelen(1) | seq-len(1) seq | mtype(1) | method-len(1) method | status-len(2) status | meta-len(2) meta | codec(1) | body
+	f := append([]byte(nil), frame...)
+	p := 5 + int(f[4])
+	p += 1 + int(f[p]) // seq
+	p++                // mtype
+	p += 1 + int(f[p]) // service method
+	p += 2 + (int(f[p])<<8 | int(f[p+1]))
+	p += 2 + (int(f[p])<<8 | int(f[p+1]))
+	if p < len(f) {
+		f[p] = id
+	}
+	return f
+}
+
 func (d *dataRun) hostileCase(c DataCase, out map[string]interface{}) {
+	if c.S("class") == "replybody" {
+		d.replyBodyCase(c, out)
+		return
+	}
 	w := getHostileWorld(d.rec)
 	proto := c.S("proto")
 	limit := c.I("limit")
